@@ -37,7 +37,7 @@ var c02exprs = []c02tpl{
 	{"a + b", true}, {"a - b", true}, {"a * b", true}, {"a / b", true}, {"a + 3", true}, {"a - 3", true}, {"3 + a", true}, {"a % b", false},
 	{`int(a) + m["k"]`, false}, {"int(a) + s[1]", false}, {"int(a) + o.n", false}, {"o.Get(int(a))", false}, {"id(int(a))", false}, {"G + int(a)", false},
 	{"a /\n\t\tb", true}, {"a +\n\t\tb", true}, {"a *\n\t\tb", true}, {"a -\n\t\tb", true}, {"boom(\n\t\tint(a))", false}, {"o.Boom(\n\t\tint(a))", false}, {"s[int(a)]", false}, {"o.s[int(b)+\n\t\t1]", false},
-	{"int(a) + o.s[1]", false}, {`int(a) + o.m["k"]`, false}, {`m["k"] + s[1]`, false}, {"o.n + o.n", false}, {"int(a) + fm[0.5]", false}, {"s[len(s)-1]", false}, {"int(b) - 0", false}, {"o.p.n + 1", false}, {"o.Sum(int(a), 1, 2, 3)", false}, {"o.Sum(int(a))", false}, {"o.Sum(1, s...)", false}, {"vsum(int(a), 2, 3)", false}, {"vsum()", false}, {"vsum(s...)", false},
+	{"int(a) + o.s[1]", false}, {`int(a) + o.m["k"]`, false}, {`m["k"] + s[1]`, false}, {"o.n + o.n", false}, {"int(a) + fm[0.5]", false}, {"s[len(s)-1]", false}, {"int(b) - 0", false}, {"o.p.n + 1", false}, {"o.Sum(int(a), 1, 2, 3)", false}, {"o.Sum(int(a))", false}, {"o.Sum(1, s...)", false}, {"vsum(int(a), 2, 3)", false}, {"vsum()", false}, {"vsum(s...)", false}, {"a + 1 + 2", true}, {"a - 1 + 2", true}, {"a + 1 - 1", true},
 	// operands in their zero state: reads of nil maps and slices yield zero values / faults, identically in both modes
 	{`int(a) + nm["k"]`, false}, {"int(a) + nfm[0.5]", false}, {"int(a) + nim[3]", false}, {"int(a) + len(ns) + len(nm)", false}, {"int(a) + ns[0]", false}, {"int(a) + no.n", false}, {"int(a) + o.q", false}, {`int(a) + o.nm["k"]`, false}, {`len(sm["k"]) + int(a)`, false}, {`len(nsm["k"]) + int(a)`, false},
 }
@@ -48,6 +48,11 @@ var c02stmts = []c02tpl{
 	{"o.n += s[1]", false}, {`m["k"] += o.n`, false}, {"o.s[1] = int(a)", false}, {"o.p.n = int(a)", false}, {"fm[0.5] = int(a)", false}, {"s = append(s, int(a))", false}, {"o.Add(int(a))", false},
 	// a field computed from ANOTHER field plus a constant (looks like the in-place increment window), stores into zero-state operands
 	{"o.q = o.n + 3", false}, {"o.q = o.n - 3", false}, {"o.n = o.q + 1", false}, {"o.p.n = o.n + 1", false}, {"o.q = o.q + 1", false}, {"o.q += 2", false}, {"o.q++", false}, {`nm["k"] = int(a)`, false}, {"ns[0] = int(a)", false}, {"no.n = int(a)", false}, {"nim[3] = int(a)", false}, {"ns = append(ns, int(a))", false}, {`sm["k"] = "v"`, false}, {"im[3] = int(a)", false}, {"im[3]++", false}, {"bs[1] = 300 - 45", false}, {"bs[1]++", false}, {"bs[1] += 200", false},
+	// a local's field as the last operand of a short-circuit operator or a loop condition (the right operand is optimized
+	// on its own, before the jump over it is measured); two constants added to a local in a row
+	{"if c && o.ok {\n\tr = 7\n}", false}, {"if c || o.ok {\n\tr = 7\n}", false}, {"if !c && !o.ok {\n\tr = 7\n}", false}, {"for i := 0; i < 3 && o.n > i; i++ {\n\tr++\n}", false}, {"for o.q < 2 && o.p.n > 0 {\n\to.q++\n}", false},
+	{"if a+1-1 == a {\n\tr = 1\n}", true}, {"if a+1+2 == a+3 {\n\tr = 1\n}", true}, {"if b-1+1 != b {\n\tr = 1\n}", true},
+	{"a = a + 1 + 2", true}, {"a = a - 1 + 2", true}, {"a = a + 1 - 1", true}, {"r = int(a) + 1 + 2 - 3", false},
 	// failing stores and calls written over two lines (the reported line must not depend on fusion)
 	{"ns[\n\t0] = int(a)", false}, {"nm[\n\t\"k\"] = int(a)", false}, {"no.\n\tn = int(a)", false}, {"nim[\n\t3] += int(a)", false}, {"r = o.\n\tBoom(9)", false}, {"r = boom(\n\t9)", false}, {"r = no.\n\tGet(1)", false},
 }
@@ -95,6 +100,7 @@ type O struct {
 	p  *P
 	q  int
 	nm map[string]int
+	ok bool
 }
 
 func (o *O) Get(a int) int {
@@ -119,6 +125,21 @@ func vsum(xs ...int) int {
 		t += x
 	}
 	return t + len(xs)*100
+}
+
+func pollute() int {
+	var a uint8 = 200
+	var b float64 = 1.5
+	var c int8 = -3
+	var d uint32 = 4000000000
+	e := "s"
+	f := []int{1}
+	g, h, i, j := a, b, c, d
+	var k uint8 = 9
+	l, m, n, o := b, a, d, c
+	p, q, r, s2 := a, b, a, b
+	t, u, v, w := c, d, c, d
+	return int(a) + int(b) + int(c) + int(d%7) + len(e) + len(f) + int(g) + int(h) + int(i) + int(j%7) + int(k) + int(l) + int(m) + int(n%7) + int(o) + int(p) + int(q) + int(r) + int(s2) + int(t) + int(u%7) + int(v) + int(w%7)
 }
 
 var G = 5
@@ -179,9 +200,10 @@ func corpusFusion() []cItem {
 		name := fmt.Sprintf("F%d", len(funcs))
 		tn := c4name[t]
 		fn := fmt.Sprintf("func %s(a %s, b %s, c bool) int {\n\to := &O{n: 7, m: map[string]int{\"k\": 4}, s: []int{1, 2, 3}, p: &P{n: 9}}\n\tm := map[string]int{\"k\": 4}\n\tfm := map[float64]int{0.5: 6}\n\ts := []int{1, 2, 3}\n\tvar nm map[string]int\n\tvar nfm map[float64]int\n\tvar nim map[int]int\n\tvar ns []int\n\tvar no *O\n\t_ = no\n\tvar nsm map[string]string\n\tsm := map[string]string{\"k\": \"vv\"}\n\tim := map[int]int{3: 1}\n\tbs := []byte{1, 250}\n\tr := 0\n%s\treturn r*100000 + int(a)*1000 + o.n*100 + m[\"k\"]*10 + s[1] + o.p.n + fm[0.5] + len(s) + o.s[1] + G + o.q*7 + len(nm) + len(nfm) + len(nim) + len(ns)*3 + len(sm[\"k\"]) + im[3]*11 + int(bs[1])*13 + len(nsm)\n}\n", name, tn, tn, c02indent(body, "\t"))
-		// W calls F from a frame with live locals: the result must not depend on where F's frame sits on the stack,
+		// W calls F from a frame with live locals, right after another function (pollute) has used the same stack region for
+		// locals of every numeric type: the result must not depend on where F's frame sits on the stack,
 		// and F must not touch its caller's slots (checked by C07 as a differential between the two calls)
-		fn += fmt.Sprintf("\nfunc W%s(a %s, b %s, c bool) int {\n\tp0, p1, p2 := 11, 22, 33\n\tr := %s(a, b, c)\n\tif p0 != 11 || p1 != 22 || p2 != 33 {\n\t\treturn 777777\n\t}\n\treturn r\n}\n", name[1:], tn, tn, name)
+		fn += fmt.Sprintf("\nfunc W%s(a %s, b %s, c bool) int {\n\tp0, p1, p2 := 11, 22, 33\n\tpollute()\n\tr := %s(a, b, c)\n\tif p0 != 11 || p1 != 22 || p2 != 33 {\n\t\treturn 777777\n\t}\n\treturn r\n}\n", name[1:], tn, tn, name)
 		funcs = append(funcs, fn)
 		vals := [][2]float64{{5, 3}, {9, 1}, {100, 7}, {5, 0}, {1, 2}}
 		switch t {
@@ -194,7 +216,7 @@ func corpusFusion() []cItem {
 		case c4u32:
 			vals = append(vals, [2]float64{4294967295, 1}, [2]float64{0, 1})
 		case c4f64:
-			vals = append(vals, [2]float64{0.5, 0.25}, [2]float64{-0.0, 1}, [2]float64{1e21, 3})
+			vals = append(vals, [2]float64{0.5, 0.25}, [2]float64{-0.0, 1}, [2]float64{1e21, 3}, [2]float64{9007199254740992, 1}, [2]float64{1e-20, 1})
 		}
 		for _, v := range vals {
 			for _, cb := range []bool{true, false} {
